@@ -77,8 +77,11 @@ def proof_step(prop_id, cfg):
         res["log"] = "forbidden constructs:\n" + "\n".join(bad)
         return res
     ok, log = model.make_coq()
-    pv = os.path.join(COQ, cfg["coq"])
-    src = strip_comments(open(pv).read()) if os.path.exists(pv) else ""
+    pfiles = [cfg["coq"]] + list(cfg.get("coq_extra", []))
+    src = ""
+    for pf in pfiles:
+        pv = os.path.join(COQ, pf)
+        src += (strip_comments(open(pv).read()) if os.path.exists(pv) else "") + "\n"
     thms = re.findall(r"^\s*(?:Theorem|Corollary)\s+(\w+)", src, re.M)
     res["theorems"] = thms
     res["obligations"] = len(thms)
@@ -88,11 +91,14 @@ def proof_step(prop_id, cfg):
         res["broken_at"] = m.group(0) if m else "make failed"
         return res
     # re-run the property file alone to capture Print Assumptions
-    rc, out = model.sh("timeout 900 coqc -R . HGV %s" % cfg["coq"], cwd=COQ)
-    if rc != 0:
-        res["log"] = out[-3000:]
-        res["broken_at"] = cfg["coq"]
-        return res
+    out = ""
+    for pf in pfiles:
+        rc, o1 = model.sh("timeout 900 coqc -R . HGV %s" % pf, cwd=COQ)
+        out += o1
+        if rc != 0:
+            res["log"] = o1[-3000:]
+            res["broken_at"] = pf
+            return res
     blocks = re.split(r"\n(?=Closed under the global context|Axioms:)", "\n" + out)
     ass = [b.strip() for b in blocks if b.strip().startswith(("Closed under", "Axioms:"))]
     npa = len(re.findall(r"Print Assumptions\s+(\w+)", src))
